@@ -226,6 +226,16 @@ PROPS["C18"] = dict(
     jobs=[job("enum", "^TestNamedEnum$", (2, 16), (3000, 30000), (600, 3000)),
           job("regex", "^TestRegexType$", (2, 16), (2000, 20000), (600, 3000))],
 )
+PROPS["C14"] = dict(
+    pkg="c14", level="exploration",
+    technique="prefix-relation property testing: accepted texts S x separators x directive-like tails; Len must equal len(S), the prefix must pass Check with the same AST; lexically incomplete S + tail must make Len fail",
+    level_text=("Bounded exploration over generated accepted schemas (several styles, incl. ones ending in annotations and type shortcuts), JSON documents (trailing characters allowed) and enum rule texts, "
+                "each followed by a separator (none after a closing bracket or quote, blanks, LF/CRLF runs) and a foreign tail; plus the negative half (S cut inside its top-level container). Sampled."),
+    level_note="trusted: the generators produce accepted S (schemas are checked first); scalars directly followed by a non-extending byte are outside the stated domain (only no-panic is asserted there)",
+    rule=("cases (kind, S, separator, tail); non-trivial = tail non-empty (or a cut S); distinct by the tuple"),
+    assumptions=["tails never start with / or # (which continue a schema) nor with | after a type shortcut"],
+    jobs=[job("len", "^TestLen", (2, 16), (5000, 50000), (600, 3000))],
+)
 
 _UNBUILT = "check under construction in this session (see DESIGN.md section 5 for the planned design)"
 NOT_APPLICABLE = [dict(property_id="C%02d" % i, reason=_UNBUILT) for i in range(1, 20) if "C%02d" % i not in PROPS]
